@@ -789,7 +789,7 @@ class _Select(Entry):
     def cases(self, ctx, round=0):
         r = ctx.rng
         cs = []
-        for _ in range(ctx.n(185, 2600)):
+        for _ in range(ctx.n(185, 2200)):
             p = r.random()
             if p < 0.08:
                 arr, na, kind = gen_substr_case(r, ctx)
@@ -902,7 +902,7 @@ class Add(Entry):
     def cases(self, ctx, round=0):
         r = ctx.rng
         cs = []
-        for _ in range(ctx.n(185, 2600)):
+        for _ in range(ctx.n(185, 2200)):
             arr = gen_array(r, ctx)
             have = [f["name"] for f in arr["fields"]]
             k = r.choice([1, 1, 2, 2, 3, 4])
@@ -1034,7 +1034,7 @@ class Combine(Entry):
     def cases(self, ctx, round=0):
         r = ctx.rng
         cs = []
-        for _ in range(ctx.n(185, 2600)):
+        for _ in range(ctx.n(185, 2200)):
             shape = gen_shape(r, ctx)
             k = r.choice([1, 2, 2, 2, 3, 3, 4])
             kind = r.choice(["same", "same", "same", "same", "same", "size-differs", "shared-name", "mixed-shape", "empty"])
@@ -1112,7 +1112,7 @@ class Copy(Entry):
     def cases(self, ctx, round=0):
         r = ctx.rng
         cs = []
-        for _ in range(ctx.n(185, 2600)):
+        for _ in range(ctx.n(185, 2200)):
             a1 = gen_array(r, ctx)
             kind = r.choice(["same-shape", "same-shape", "same-shape", "same-shape", "size-differs", "lead-1",
                              "incompatible-shape", "disjoint", "all-common-permuted", "order-differs", "order-differs"])
@@ -1182,7 +1182,7 @@ class CopyByName(Entry):
     def cases(self, ctx, round=0):
         r = ctx.rng
         cs = []
-        for _ in range(ctx.n(185, 2600)):
+        for _ in range(ctx.n(185, 2200)):
             if r.random() < 0.08:
                 arr, na, kind = gen_substr_case(r, ctx)
                 sel = na["names"]
@@ -1270,7 +1270,7 @@ class Split(Entry):
     def cases(self, ctx, round=0):
         r = ctx.rng
         cs = []
-        for _ in range(ctx.n(150, 2200)):
+        for _ in range(ctx.n(150, 1900)):
             p = r.random()
             if p < 0.08:
                 arr, na, kind = gen_substr_case(r, ctx)
@@ -1418,7 +1418,7 @@ class Compare(Entry):
     def cases(self, ctx, round=0):
         r = ctx.rng
         cs = []
-        for _ in range(ctx.n(200, 2600)):
+        for _ in range(ctx.n(200, 2200)):
             a1 = gen_array(r, ctx, mode=r.choice(["values", "finite", "finite"]))
             kind = r.choice(["copy", "copy", "byteswapped", "one-item", "one-item", "fields-differ", "reordered",
                              "shape-differs", "sub-differs", "neg-zero", "nan", "wider-string", "size-differs",
@@ -1620,7 +1620,7 @@ class CompareVerbose(Compare):
     def cases(self, ctx, round=0):
         keep = []
         for c in Compare.cases(self, ctx, round):
-            if str(c.get("family", "")).startswith(("long", "seq:")) or len(keep) >= ctx.n(60, 800):
+            if str(c.get("family", "")).startswith(("long", "seq:")) or len(keep) >= ctx.n(60, 700):
                 continue
             c = dict(c, verbose=True, omit_kw=False, family="verbose:" + str(c.get("family")))
             keep.append(c)
